@@ -64,7 +64,7 @@ def gen(rng, idx, tier):
         cls = str(rng.choice(["spd", "sym", "hpd", "herm", "general", "generalc", "blocks2"]))
         n = int(rng.integers(2, 20 if tier == "thorough" else 9))
     elif storage == "sparse":
-        cls = str(rng.choice(["spd", "sym", "spd", "general"]))
+        cls = str(rng.choice(["spd", "sym", "spd", "general", "herm", "hpd"]))
         n = int(rng.integers(8, 60 if tier == "thorough" else 25))
     else:
         cls, n = "fe", 0
